@@ -9,6 +9,7 @@
 -/
 import Absnfs.ServerDir
 import Absnfs.ServerDirPlus
+import Absnfs.ServerListing
 import Gen.Facts
 open Absnfs Absnfs.Server
 
@@ -152,5 +153,24 @@ def nodeA : Node := ⟨[47, 97], ⟨.file, 420, 0, 1, 0, 0⟩⟩
 def nodeB : Node := ⟨[47, 98, 98], ⟨.dir, 493, 0, 2, 0, 0⟩⟩
 example : walkPages 132 [nodeA, nodeB] 3 0 = some (numbered 0 [nodeA, nodeB]) := by decide
 example : (match page 131 0 [nodeA, nodeB] with | .tooSmall => true | _ => false) = true := by decide
+
+/-- where the entries come from, after any history, whenever the directory cache cannot answer (none configured,
+    or no entry for the directory — e.g. right after any of the server's own mutations in it, Props.C02
+    `*_drops_parent_listing`): for a handle whose path is a directory of the backend, the list the paging loops walk
+    is the backend's directory — every child whose name the listing loop accepts (not '.', '..' or empty, no '/' or
+    '\\'), in name order, each as often as the backend lists it, nothing else. Together with `readdir_walk_complete` /
+    `readdirplus_walk_complete`: following the cookies returns exactly the directory's entries. -/
+theorem entries_are_the_backend_directory (s0 : St) (rs : List Req) (h0 : CInv s0) (now : Nat) (d : Node) (nodes : List Node)
+    (hcold : DcCold (runReqs s0 rs) d.path) (hd : CleanPath d.path) (e : Fs.Entry)
+    (hwalk : Fs.walk (runReqs s0 rs).fs (fsPath d.path) = .ok e) (hk : e.kind = .dir)
+    (h : (readDir (runReqs s0 rs) now d).2 = .ok nodes) :
+    nodes.map (·.path) =
+      ((((Fs.sortByName (Fs.children (runReqs s0 rs).fs (fsPath d.path))).map (·.1)).filter (listable d.path)).map
+        (joinName d.path)) :=
+  readDir_lists_backend _ now d nodes (runReqs_cinv s0 rs h0) hcold hd e hwalk hk h
+
+/-- without a directory cache the hypothesis holds for every directory -/
+theorem no_dircache_is_cold (s : St) (p : Bytes) (h : s.dc = none) : DcCold s p := by
+  intro c hc; rw [h] at hc; simp at hc
 
 end Props.C26
